@@ -97,7 +97,11 @@ fn main() {
         "c16-pool" => poolcli::c16_pool_cases(&mut rng, &tier, &mut out),
         "c02" => repair::c02_cases(&mut rng, &tier, &mut out),
         "c13-hdr" => hdrsrc::c13_hdr_cases(&mut rng, &tier, &mut out),
-        "c02-src" => repair::c02_src_cases(&mut rng, &tier, &mut out),
+        "c02-src" => {
+            repair::c02_src_cases(&mut rng, &tier, &mut out);
+            repair::c02_exotic_cases(&mut rng, &tier, &mut out);
+        }
+        "c02-exotic" => repair::c02_exotic_cases(&mut rng, &tier, &mut out),
         "c02-small" => hdrsrc::c02_small_cases(&mut rng, &tier, &mut out),
         "c02-comp" => fscomp::c02_comp_cases(&mut rng, &tier, &arg(&args, "--aspect").unwrap_or_default(), &mut out),
         "c05" => repair::c05_cases(&mut rng, &tier, &mut out),
@@ -125,7 +129,12 @@ fn main() {
         "c15-dims" => memdims::c15_dims_cases(&mut rng, &tier, &mut out),
         "c15-blocks" => memdims::c15_blocks_cases(&mut rng, &tier, &mut out),
         "c10" => history::c10_cases(&mut rng, &tier, &mut out),
-        "c10-order" => history::c10_order_cases(&mut rng, &tier, &mut out),
+        "c10-order" => {
+            history::c10_order_cases(&mut rng, &tier, &mut out);
+            if cfg!(feature = "scaled") {
+                history::c10_abandon_hash_cases(&mut rng, &tier, &mut out);
+            }
+        }
         "c12" => history::c12_cases(&mut rng, &tier, &mut out),
         "c12-cli" => cli::c12_cli_cases(&mut rng, &tier, &mut out),
         "c13" => history::c13_cases(&mut rng, &tier, &mut out),
